@@ -204,15 +204,19 @@ fn check_write_read(rep: &mut Report, rng: &mut Rng, pool: &[RName]) {
         records.push((small_name(rng, pool), class, rtype, rd));
     }
     let qname_r = small_name(rng, pool);
+    // a third of the messages get a tight size limit: some records then fail with Truncation in the
+    // middle of their RDATA (whether that was necessary is C12's subject) and the records written
+    // after a failed one must still read back as the RDATA given
+    let limit = if rng.chance(1, 3) { rng.range(40, 400) } else { 4096 };
     let result = panicmon::catch(|| {
-        let mut w = Writer::new(&mut buf, 4096).unwrap();
+        let mut w = Writer::new(&mut buf, limit).unwrap();
         w.set_compression_mode(mode);
         let q = Question {
             qname: Name::try_from_uncompressed_all(&qname_r.wire()).unwrap(),
             qtype: Qtype::from(1),
             qclass: Qclass::from(1),
         };
-        w.add_question(&q).unwrap();
+        let _ = w.add_question(&q);
         let mut written = Vec::new();
         for (owner, class, rtype, rd) in &records {
             let o = Name::try_from_uncompressed_all(&owner.wire()).unwrap();
@@ -233,7 +237,9 @@ fn check_write_read(rep: &mut Report, rng: &mut Rng, pool: &[RName]) {
     let msg = &buf[..len];
     let read_back = panicmon::catch(|| {
         let mut r = Reader::try_from(msg).unwrap();
-        r.read_question().map_err(|e| format!("{:?}", e))?;
+        if r.qdcount() > 0 {
+            r.read_question().map_err(|e| format!("{:?}", e))?;
+        }
         let mut out = Vec::new();
         for _ in 0..r.ancount() {
             let rr = r.read_rr().map_err(|e| format!("{:?}", e))?;
@@ -244,7 +250,7 @@ fn check_write_read(rep: &mut Report, rng: &mut Rng, pool: &[RName]) {
     let expected: Vec<&(RName, u16, u16, Vec<u8>)> = records.iter().zip(written.iter()).filter(|(_, w)| **w).map(|(r, _)| r).collect();
     for (rec, ok) in records.iter().zip(written.iter()) {
         rep.eval();
-        if !ok {
+        if !ok && limit == 4096 {
             rep.violation(
                 format!("c18:writer-rejects-valid:type{}", rec.2),
                 format!("writer refused valid RDATA {} of class {} type {}", hex(&rec.3), rec.1, rec.2),
